@@ -153,8 +153,13 @@ Definition shape_all (ll : list (list gsubst)) (s : list N) : list N :=
 (* ------------------------------------------------------------------ *)
 (* S_subset                                                             *)
 
-Fixpoint iter {A} (n : nat) (h : A -> A) (x : A) : A :=
-  match n with O => x | S k => iter k h (h x) end.
+(* iterate a function that only ever appends, until nothing is appended any
+   more (at most n times) *)
+Fixpoint iter (n : nat) (h : list N -> list N) (x : list N) : list N :=
+  match n with
+  | O => x
+  | S k => let y := h x in if Nat.eqb (length y) (length x) then x else iter k h y
+  end.
 
 (* one pass: every rule whose inputs are all present contributes its outputs *)
 Definition fire (rules : list rule) (l : list N) : list N :=
